@@ -22,6 +22,7 @@ type Mutation struct {
 	Expect string // substring expected in the reported key
 	All    bool   // replace all occurrences (else exactly one must exist)
 	More   [][2]string // further (old, new) edits in the same file, each must occur exactly once
+	Clean  bool        // the variant is a behaviour-preserving edit: the check must stay silent (exit 0)
 }
 
 func copyTree(src, dst string) error {
@@ -111,6 +112,11 @@ func runSelfTest(c *Ctx, info *propInfo) *SelfTestResult {
 				}
 			}
 			switch {
+			case m.Clean && code == 0:
+				o.status = "detected"
+			case m.Clean:
+				o.status = "missed"
+				o.detail = fmt.Sprintf("a behaviour-preserving edit raised an alarm or broke the check (exit %d): %s", code, lastLines(text, 3))
 			case code == 1 && found:
 				o.status = "detected"
 			case code == 2:
@@ -131,7 +137,11 @@ func runSelfTest(c *Ctx, info *propInfo) *SelfTestResult {
 		case "detected":
 			res.Tried++
 			res.Detected++
-			res.Details = append(res.Details, fmt.Sprintf("%s: detected by %s", o.m.Name, o.m.Rule))
+			if o.m.Clean {
+				res.Details = append(res.Details, fmt.Sprintf("%s: stays silent (behaviour-preserving edit)", o.m.Name))
+			} else {
+				res.Details = append(res.Details, fmt.Sprintf("%s: detected by %s", o.m.Name, o.m.Rule))
+			}
 		default:
 			res.Tried++
 			res.Missed = append(res.Missed, o.m.Name)
